@@ -13,7 +13,7 @@ import copy
 
 from .. import observe, tokens
 from ..core import Machine, Violation
-from .c05 import gen_valid_records
+from .c05 import flag_kwargs, gen_valid_records
 
 PROP = "C10"
 DERIVATIONS = ["chain", "sub", "remap_curie", "remap_uri", "rewire", "discover"]
@@ -291,7 +291,8 @@ class C10Machine(Machine):
         if kind == "add_record" and rng.random() < 0.4:
             rec["pattern"] = rng.choice(["^\\d+$", "^[A-Z]+$"])      # only add_record can carry a pattern
         return {"op": "mutate", "h": h, "kind": kind, "record": rec,
-                "case_sensitive": rng.random() < 0.8, "merge": rng.random() < cfg["p_merge"]}
+                "case_sensitive": rng.random() < 0.8, "merge": rng.random() < cfg["p_merge"],
+                "omit_defaults": rng.random() < 0.5}
 
     @staticmethod
     def simplify_op(op):
@@ -538,11 +539,11 @@ class C10Machine(Machine):
         err = None
         try:
             if op["kind"] == "add_record":
-                e.conv.add_record(c.Record(**rd), case_sensitive=op["case_sensitive"], merge=op["merge"])
+                e.conv.add_record(c.Record(**rd), **flag_kwargs(op, op["case_sensitive"], op["merge"]))
             else:
                 e.conv.add_prefix(rd["prefix"], rd["uri_prefix"], prefix_synonyms=list(rd["prefix_synonyms"]),
                                   uri_prefix_synonyms=list(rd["uri_prefix_synonyms"]),
-                                  case_sensitive=op["case_sensitive"], merge=op["merge"])
+                                  **flag_kwargs(op, op["case_sensitive"], op["merge"]))
         except Exception as ex:  # noqa: BLE001
             err = ex
         self.event("mutate_" + op["kind"] + ("_rejected" if err else "_accepted"))
